@@ -254,6 +254,7 @@ def write_evidence(prop, tier, res, sel, obligations, rule_inst, rule_viol, know
         "new_violations": len(viol_keys),
         "analysis_errors": errors,
         "unmodelled_calls": res.get("unmodelled", {}),
+        "uninterpreted_pure_std_calls": res.get("uninterpreted", {}),
         "loops": [l for l in res.get("loops", []) if any(l["fn"] == o["fn"] for o in obligations)][:20],
         "program": res.get("facts", {}),
         "inventory": {k: v for k, v in res.get("inventory", {}).items() if k != "fns_by_module"},
